@@ -313,6 +313,20 @@ func runScenario(t *testing.T, sc *Scenario) {
 			}
 			time.Sleep(2 * time.Second)
 			synctest.Wait()
+		case "recov":
+			// logs that only the recovery path knows: each listed node's recoverable provider proposes them; the network
+			// coordinates a block, every node checks them on it (any node can check a coordinated proposal)
+			var ps []common.UpkeepPayload
+			for _, n := range st.Logs {
+				ps = append(ps, logPayloadAt(n, st.BlkOff))
+			}
+			for _, i := range st.Nodes {
+				if h, ok := nodes[i]; ok {
+					h.nd.Recov.Push(ps...)
+				}
+			}
+			time.Sleep(2 * time.Second)
+			synctest.Wait()
 		case "sleep":
 			time.Sleep(time.Duration(st.Secs) * time.Second)
 			synctest.Wait()
@@ -360,6 +374,8 @@ func runScenario(t *testing.T, sc *Scenario) {
 						}
 						okw = okw && has
 					}
+				} else if st.Kind == "recov" {
+					// proposed by some honest node's recovery path just before: checkable by every node once coordinated
 				} else {
 					for i := range nodes {
 						okw = okw && logSeen[i][n]
